@@ -62,6 +62,7 @@ class Engine:
         self.solver_s = 0.0
         self.unknowns = 0
         self.fresh = 0
+        self.fresh_internal = 0
         self.vars = {}  # name -> z3 const (symbolic mode)
         self.uf_apps = {}
         self.events = []  # harness-level log (stub traffic), JSON-able
@@ -154,7 +155,7 @@ class Engine:
         if v is None:
             v = z3.Int(name)
             self.vars[name] = v
-        return SV(z3.ToReal(v), is_int=True)
+        return SV(v, is_int=True)
 
     def boolean(self, name):
         from .values import SB
@@ -195,14 +196,17 @@ class Engine:
         return hi
 
     # low level z3 consts for internal encodings (argmin index, sqrt, ...)
+    # (their own counter: the concrete replay never creates them, harness-level fresh names must not shift)
     def z3_real(self, base):
-        name = self.fresh_name(base)
+        self.fresh_internal += 1
+        name = f"{base}!i{self.fresh_internal}"
         v = z3.Real(name)
         self.vars[name] = v
         return v
 
     def z3_int(self, base):
-        name = self.fresh_name(base)
+        self.fresh_internal += 1
+        name = f"{base}!i{self.fresh_internal}"
         v = z3.Int(name)
         self.vars[name] = v
         return v
